@@ -1,6 +1,8 @@
 import RbV.Model.Occ
 import RbV.Model.OccTable
 import RbV.Model.InvBWT
+import RbV.Thm.GenSrcBwt
+import RbV.Thm.GenSrcPrescan
 /-!
 # C04 — BWT, less and Occ are exact (mirror models of `bwt.rs` refine the specification)
 
@@ -122,5 +124,52 @@ example : InvBWT.invertModel (bwtRef [99, 97, 98, 99, 97, 36] [5, 4, 1, 2, 3, 0]
   decide
 
 example : InvBWT.bwtfindModel [97, 99, 99, 97, 98, 36] 101 = [5, 0, 3, 4, 1, 2] := by decide
+
+/-! ## Function bodies translated from the source text (docs/notes/GEN.md, "Translated function bodies")
+
+`RbV/Gen/SrcBwt.lean` is regenerated from `src/data_structures/bwt.rs` by `tools/rs2lean.py` on every `./check C04`; the
+theorems below are re-proved against the regenerated definition (proofs: `RbV/Thm/GenSrcBwt.lean`). `Rs.Res.ok v` = the
+translated function returns `v` without panicking (assertion, index out of bounds, checked `usize` subtraction). -/
+
+/-- **`pub fn bwt`, as written, is the mirror model `bwtModel`** for a suffix array of the text's length whose entries are
+text positions (the hypothesis of `bwt_exact`; with any other input the Rust code panics or the property does not apply) -/
+theorem bwt_source_eq_model (t sa : List Nat) (hlen : t.length = sa.length) (h : ∀ p ∈ sa, p < t.length) :
+    Gen.SrcBwt.bwt t sa = Rs.Res.ok (bwtModel t sa) :=
+  GenSrcBwt.bwt_eq_model t sa hlen h
+
+/-- generated code = specification: the translated `bwt()` returns, row by row, the symbol that cyclically precedes the
+suffix-array entry -/
+theorem bwt_source_exact (t sa : List Nat) (hlen : t.length = sa.length) (h : ∀ p ∈ sa, p < t.length) :
+    Gen.SrcBwt.bwt t sa = Rs.Res.ok (bwtRef t sa) := by
+  rw [GenSrcBwt.bwt_eq_model t sa hlen h, bwtModel_eq t sa h]
+
+/-- a suffix array of another length is refused: the `assert_eq!` of `bwt()` fires -/
+theorem bwt_source_length_mismatch_panics (t sa : List Nat) (hlen : t.length ≠ sa.length) :
+    Gen.SrcBwt.bwt t sa = Rs.Res.panic :=
+  GenSrcBwt.bwt_length_mismatch_panics t sa hlen
+
+example : Gen.SrcBwt.bwt [99, 97, 98, 99, 97, 36] [5, 4, 1, 2, 3, 0] = Rs.Res.ok [97, 99, 99, 97, 98, 36] := by decide
+
+/-- **`utils::prescan`, as written (in-place rewrite through `iter_mut()`), instantiated with `+`, is the model's
+`prescanGo`** — the second half of `less()` -/
+theorem prescan_source_eq_model (a : List Nat) (neutral : Nat) :
+    Gen.SrcPrescan.prescan (· + ·) a neutral = Rs.Res.ok (prescanGo neutral a) :=
+  GenSrcPrescan.prescan_eq_model a neutral
+
+/-- generated code = specification: entry `i` of the slice rewritten by the translated `prescan` is the neutral element
+plus the sum of the entries before `i` -/
+theorem prescan_source_exact (a : List Nat) (neutral i : Nat) (h : i < a.length) :
+    ∃ r, Gen.SrcPrescan.prescan (· + ·) a neutral = Rs.Res.ok r ∧ r[i]? = some (neutral + (a.take i).sum) :=
+  ⟨_, GenSrcPrescan.prescan_eq_model a neutral, prescanGo_getElem? neutral a i h⟩
+
+/-- … and applied to the count array of a BWT it yields the `less` array: entry `c` = number of smaller symbols. (The
+first half of `less()` — `alphabet.max_symbol()`, the counting loop, the closure `|a, b| a + b` — is outside the translated
+subset and stays tied by the mirror model `countArr` and the correspondence run.) -/
+theorem less_source_prescan_exact (bwt : List Nat) (m c : Nat) (h : c < m) :
+    ∃ r, Gen.SrcPrescan.prescan (· + ·) (countArr bwt m) 0 = Rs.Res.ok r ∧
+      r[c]? = some (bwt.countP (fun x => decide (x < c))) :=
+  ⟨_, GenSrcPrescan.prescan_eq_model _ 0, less_eq bwt m c h⟩
+
+example : Gen.SrcPrescan.prescan (· + ·) [1, 0, 2, 1] 0 = Rs.Res.ok [0, 1, 1, 3] := by decide
 
 end RbV.Thm.C04
